@@ -423,7 +423,7 @@ package larking
 // between the root and a node (for a variable: the depth of the node it hangs
 // off). TrieWf is the object invariant of the trie that addRule builds; the
 // matcher assumes it (establishing it in addRule is a separate obligation set).
-//@ spec TrieWf() = (forall r :: {ptr(r, "variable").next} r > 0 ==> VarWf(ptr(r, "variable")) && ptr(r, "variable").next != nil
+//@ spec TrieWf() = (forall r :: {ptr(r, "variable").next} {len(ptr(r, "variable").toks)} r > 0 ==> VarWf(ptr(r, "variable")) && ptr(r, "variable").next != nil
 //@            && gf(ptr(r, "variable").next, "depth") == gf(r, "depth") + 1)
 //@      && (forall r, x :: {at(ptr(r, "path").variables, x)} r > 0 && off(ptr(r, "path").variables) <= x
 //@            && x < off(ptr(r, "path").variables) + len(ptr(r, "path").variables)
@@ -658,8 +658,10 @@ package larking
 //@ func (*path).findVariable trusted pure
 //@   returns (v, ok)
 //@   ensures ok ==> v != nil
-//@ func newPath trusted pure
-//@   ensures result != nil
+//@ func newPath serves C12 C16
+//@   ensures [fresh-node C12] result != nil && isfresh(result) && result.segments != nil && result.methods != nil && isfresh(result.segments) && isfresh(result.methods) && result.segments != result.methods
+//@   ensures [empty-node C16] maplen(result.segments) == 0 && maplen(result.methods) == 0 && len(result.variables) == 0 && result.methodAll == nil
+//@   ensures [no-children C16] (forall k :: !maphas(result.segments, k)) && (forall k :: !maphas(result.methods, k))
 //@ func (*path).addVariable serves C02
 //@   requires p != nil && SortedVars(p.variables)
 //@   modifies F$path.variables, E$P_variable
@@ -917,3 +919,31 @@ package larking
 //@   ensures [content-type-set-for-first-message C04] old(s.sendCount) == 0 ==> ctSet == 1
 //@   assert atcall `codec.WriteNext(` [content-type-before-body C04] count == 0 ==> ctSet == 1
 //@   assert atcall `s.opts.writeAll(` [content-type-before-body C04] count == 0 ==> ctSet == 1
+
+// Copy-on-write (C12): clone builds the new routing tree out of objects it
+// allocates itself. Every trie node and variable node of the result is fresh,
+// so a writer that mutates the clone can never touch the published snapshot;
+// nothing that existed before the call is written.
+//@ func (*path).clone serves C12 C16
+//@   modifies fresh M$, fresh F$path., fresh F$variable., fresh E$P_variable
+//@   ensures [fresh-root C12] result != nil && isfresh(result) && isfresh(result.segments) && isfresh(result.methods)
+//@   assume at "pc.variables[i] = &variable{" v != nil
+//@   ensures [fresh-subtrees C12 C16] forall k :: {maphas(result.segments, k)} maphas(result.segments, k) ==> isfresh(mapval(result.segments, k))
+//@   ensures [fresh-variables C12 C16] (len(result.variables) > 0 ==> isfresh(result.variables)) && (forall x :: {at(result.variables, x)} off(result.variables) <= x && x < off(result.variables) + len(result.variables) ==> isfresh(at(result.variables, x)) && isfresh(at(result.variables, x).next))
+//@   loop 1 invariant pc != nil && isfresh(pc) && isfresh(pc.segments) && isfresh(pc.methods) && pc.segments != pc.methods
+//@   loop 1 invariant forall k :: {maphas(pc.segments, k)} maphas(pc.segments, k) ==> isfresh(mapval(pc.segments, k))
+//@   loop 2 invariant pc != nil && isfresh(pc) && isfresh(pc.segments) && isfresh(pc.methods) && pc.segments != pc.methods
+//@   loop 2 invariant forall k :: {maphas(pc.segments, k)} maphas(pc.segments, k) ==> isfresh(mapval(pc.segments, k))
+//@   loop 2 invariant -1 <= rangeindex && rangeindex < len(p.variables) && len(pc.variables) == len(p.variables) && isfresh(pc.variables)
+//@   loop 2 invariant forall x :: {at(pc.variables, x)} off(pc.variables) <= x && x <= off(pc.variables) + rangeindex ==> isfresh(at(pc.variables, x)) && allocated(at(pc.variables, x)) && isfresh(at(pc.variables, x).next)
+//@   loop 2 decreases len(p.variables) - rangeindex
+//@   loop 3 invariant pc != nil && isfresh(pc) && isfresh(pc.segments) && isfresh(pc.methods) && pc.segments != pc.methods
+//@   loop 3 invariant forall k :: {maphas(pc.segments, k)} maphas(pc.segments, k) ==> isfresh(mapval(pc.segments, k))
+//@   loop 3 invariant (len(pc.variables) > 0 ==> isfresh(pc.variables)) && (forall x :: {at(pc.variables, x)} off(pc.variables) <= x && x < off(pc.variables) + len(pc.variables) ==> isfresh(at(pc.variables, x)) && isfresh(at(pc.variables, x).next))
+
+// state.clone: the routing tree, the connection table and the handler table of
+// the writer's working copy are all new objects (the handler slices and the
+// method values are shared: writers replace them, they never write into them).
+//@ func (*state).clone serves C12
+//@   modifies fresh M$, fresh F$path., fresh F$variable., fresh E$P_variable
+//@   ensures [fresh-state C12] result != nil && isfresh(result) && result.path != nil && isfresh(result.path) && isfresh(result.conns) && isfresh(result.handlers)
